@@ -197,8 +197,10 @@ example : sraiRoundLane 2147483647 4 = 134217728 ∧ rshiftRound 2147483647 4 = 
     `pulsesLeft ≥ 0`; the arg-max returns a position `< N`), the search returns a vector of N integers with exactly K
     pulses (`Σ|iy| = K`), whose signs follow the input (`iy[j] ≤ 0` where `X[j] < 0`, `≥ 0` elsewhere), and `yy = Σ iy²`.
     Covers the "too many pulses left" branch and both sign-restoration idioms (`(iy ^ -s) + s` and `(iy + m) ^ m`).
-    The two contracts are properties of float code and are NOT proved; the witness search checks their consequence (this
-    very conclusion) on the compiled kernels. -/
+    The two contracts are properties of float code and are NOT proved here (the first is, in exact arithmetic:
+    `pvq_presearch_contract_exact`).  Tie: the correspondence run records `proj` and every `pick` inside the compiled
+    kernels (harness/c15_pvq.c) and the model, fed with them, must reproduce the kernel's `iy` and `yy` (driver op `pvq`,
+    which also reports a recording that breaks a contract). -/
 theorem pvq_search_relational (n K : Nat) (proj : List Nat) (pick : Pvq.St → Nat) (signs : List Bool)
     (hn : 0 < n) (hproj : proj.length = n) (hsum : Pvq.sum proj ≤ K) (hpick : ∀ s, pick s < n) (hs : signs.length = n) :
     (let r := Pvq.searchSse2 n K proj pick signs
@@ -264,8 +266,14 @@ theorem lanes_eq_seq_pitch_xcorr (x y : Nat → α) (len maxPitch i : Nat) :
     pitchXcorrCPortable x y len maxPitch i = pitchXcorrSpec x y len i :=
   ⟨pitchXcorrAvx2_eq x y len maxPitch i, pitchXcorrC_eq x y len maxPitch i, pitchXcorrCPortable_eq x y len maxPitch i⟩
 
-/-- comb_filter_const_sse = comb_filter_const_c at every output sample it writes, for every period `T` and gains:
-    the 0x4e/0x99 shuffles rebuild `x[i-T-1], x[i-T], x[i-T+1]` from the two loads. -/
+/-- comb_filter_const_sse = comb_filter_const_c at every output sample it writes, for every period `T` and gains,
+    when input and output do NOT overlap (`x` is an immutable memory here): the 0x4e/0x99 shuffles rebuild `x[i-T-1]`,
+    `x[i-T]`, `x[i-T+1]` from the two loads.  The codec also calls the filter IN PLACE (`y == x`, celt_decoder.c post-filter).
+    There the SSE code reads `x[i-T+2..i-T+5]` and carries `x[i-T-2..i-T+1]` from the previous block, i.e. samples that an
+    in-place run has already overwritten only if `T ≤ 5`; for `T ≥ 6` both orders read the same, final, values.  The codec
+    guarantees `T ≥ COMBFILTER_MINPERIOD = 15`.  The in-place equality is NOT a theorem of this file (UNPROVED
+    `comb_filter_inplace_sse_eq_c`); it is covered by the exact-domain correspondence run (`combip`, sequential in-place
+    semantics in the driver, every length at `T = 15` and at random `T ≥ 15`). -/
 theorem lanes_eq_seq_comb_filter (x : Nat → α) (T : Nat) (g10 g11 g12 : α) (i : Nat) :
     combSse x T g10 g11 g12 i = combC x T g10 g11 g12 i := combSse_eq x T g10 g11 g12 i
 
